@@ -75,6 +75,15 @@ type Evaluator struct {
 	Fset     *token.FileSet
 	FuncDecl func(*types.Func) (*ast.FuncDecl, *packages.Package)
 	Extern   map[string]ExternFn
+	// Pipeline: sequential pipeline model. `go f(x)` runs f(x) to completion at the go statement, channels made
+	// by the code are queues (a send makes the value receivable), `select` takes the first case whose channel
+	// has a value pending. Sound only for code whose stages are stubbed or fed in producer-before-consumer
+	// order; a receive with nothing pending is reported as undecided, never guessed.
+	Pipeline bool
+	// NumCPU is what runtime.NumCPU() returns in pipeline mode.
+	NumCPU int
+	// Spawned lists the go statements executed in pipeline mode.
+	Spawned []token.Pos
 	// VarInit returns the initialiser expression of a package-level variable (nil if none / not in the repository).
 	VarInit func(*types.Var) (ast.Expr, *packages.Package)
 	// Domain gives the element domain of an abstract sequence (values enumerated on read).
@@ -595,7 +604,12 @@ func (ev *Evaluator) unary(env *Env, e *ast.UnaryExpr) Value {
 			c.pos++
 			return c.Feed[c.pos-1]
 		}
-		ev.fail(e.Pos(), "receive from exhausted channel model %s", c.Name)
+		if c.Closed {
+			if ct, ok := env.pkg.TypesInfo.TypeOf(e.X).Underlying().(*types.Chan); ok {
+				return ev.zero(e.Pos(), ct.Elem())
+			}
+		}
+		ev.fail(e.Pos(), "receive from exhausted channel model %s (in the sequential pipeline model: nothing was sent before this receive)", c.Name)
 	}
 	x := ev.resolve(ev.expr(env, e.X))
 	switch e.Op {
@@ -1430,7 +1444,7 @@ func (ev *Evaluator) builtin(env *Env, e *ast.CallExpr, name string) Value {
 		case *types.Map:
 			return NewMap()
 		case *types.Chan:
-			return &ChanVal{Name: "made"}
+			return &ChanVal{Name: "made", Queue: ev.Pipeline, Pos: e.Pos()}
 		case *types.Slice:
 			n, ok := ev.resolve(ev.expr(env, e.Args[1])).(Lin)
 			if !ok {
@@ -1485,6 +1499,16 @@ func (ev *Evaluator) builtin(env *Env, e *ast.CallExpr, name string) Value {
 		if !ok || !mv.Delete(k) {
 			ev.fail(e.Pos(), "delete with non-constant key")
 		}
+		return nil
+	case "close":
+		ch, ok := ev.resolve(ev.expr(env, e.Args[0])).(*ChanVal)
+		if !ok {
+			ev.fail(e.Pos(), "close of an unknown channel")
+		}
+		if ch.Closed {
+			ev.fail(e.Pos(), "close of a closed channel (run-time panic)")
+		}
+		ch.Closed = true
 		return nil
 	case "panic":
 		ev.fail(e.Pos(), "panic reached")
@@ -1987,6 +2011,21 @@ func (ev *Evaluator) native(pos token.Pos, fn *types.Func, recv Value, args []Va
 		case "(*strings.Builder).Grow":
 			return nil, true
 		}
+	case "(*sync.WaitGroup).Add", "(*sync.WaitGroup).Done", "(*sync.WaitGroup).Wait", "(*sync.Mutex).Lock", "(*sync.Mutex).Unlock":
+		if !ev.Pipeline {
+			return nil, false
+		}
+		return nil, true // stages run to completion at their go statement: waiting is immediate
+	case "runtime.GOMAXPROCS":
+		if !ev.Pipeline {
+			return nil, false
+		}
+		return K(1), true
+	case "runtime.NumCPU":
+		if !ev.Pipeline {
+			return nil, false
+		}
+		return K(int64(ev.NumCPU)), true
 	case "errors.New":
 		return ErrVal{Msg: argStr(0)}, true
 	case "fmt.Errorf", "fmt.Sprintf":
@@ -2185,3 +2224,6 @@ func (ev *Evaluator) sortInterface(env *Env, e *ast.CallExpr, v Value) bool {
 	}
 	return true
 }
+
+// Zero returns the zero value of a type (for models that must return "nothing").
+func (ev *Evaluator) Zero(t types.Type) Value { return ev.zero(token.NoPos, t) }
